@@ -1,0 +1,111 @@
+//go:build verif
+
+// Package c10 re-exports what the C10 verification harness (a different
+// module) needs from the internal log store packages: the KV store interface
+// the Pebble based LogDB is written against, constructors of the real stores
+// over a caller supplied file system or KV store, and the tan record
+// writer/reader on byte buffers. Add-only; compiled only with -tags verif.
+package c10
+
+import (
+	"github.com/lni/dragonboat/v4/config"
+	"github.com/lni/dragonboat/v4/internal/logdb"
+	"github.com/lni/dragonboat/v4/internal/logdb/kv"
+	"github.com/lni/dragonboat/v4/internal/logdb/kv/pebble"
+	"github.com/lni/dragonboat/v4/internal/settings"
+	"github.com/lni/dragonboat/v4/internal/tan"
+	"github.com/lni/dragonboat/v4/internal/vfs"
+	"github.com/lni/dragonboat/v4/raftio"
+)
+
+// IKVStore is the KV store interface used by the Pebble based LogDB.
+type IKVStore = kv.IKVStore
+
+// IWriteBatch is the write batch interface used by the Pebble based LogDB.
+type IWriteBatch = kv.IWriteBatch
+
+// FS is the file system type used by the stores.
+type FS = vfs.IFS
+
+// NewMemFS returns a new in-memory file system.
+func NewMemFS() FS {
+	return vfs.NewMemFS()
+}
+
+func getConfig(fs FS, shards uint64) config.NodeHostConfig {
+	expert := config.GetDefaultExpertConfig()
+	expert.LogDB = config.GetTinyMemLogDBConfig()
+	expert.LogDB.Shards = shards
+	expert.FS = fs
+	return config.NodeHostConfig{Expert: expert}
+}
+
+// OpenLogDBOverKV opens the sharded LogDB (one shard) in the plain or the
+// batched entry format on top of the specified KV store.
+func OpenLogDBOverKV(kvs IKVStore, batched bool) (raftio.ILogDB, error) {
+	cfg := getConfig(vfs.NewMemFS(), 1)
+	f := func(config.LogDBConfig,
+		kv.LogDBCallback, string, string, vfs.IFS) (kv.IKVStore, error) {
+		return kvs, nil
+	}
+	return logdb.NewLogDB(cfg, nil, []string{"/c10kv"}, []string{}, batched, false, f)
+}
+
+// NewPebbleKV opens the Pebble based KV store used by the LogDB.
+func NewPebbleKV(fs FS, dir string) (IKVStore, error) {
+	cfg := getConfig(fs, 1)
+	return pebble.NewKVStore(cfg.Expert.LogDB, func(bool) {}, dir, "", fs)
+}
+
+// OpenPebble opens the default sharded Pebble based LogDB in the plain or the
+// batched entry format.
+func OpenPebble(fs FS, dir string, shards uint64, batched bool) (raftio.ILogDB, error) {
+	cfg := getConfig(fs, shards)
+	if batched {
+		return logdb.NewDefaultBatchedLogDB(cfg, nil, []string{dir}, []string{})
+	}
+	return logdb.NewDefaultLogDB(cfg, nil, []string{dir}, []string{})
+}
+
+// OpenTan opens a regular or log multiplexed Tan LogDB.
+func OpenTan(fs FS, dir string, multiplexed bool) (raftio.ILogDB, error) {
+	cfg := getConfig(fs, 1)
+	// tan allocates 16 buffers of this size per LogDB instance
+	cfg.Expert.LogDB.KVWriteBufferSize = 64 * 1024
+	if multiplexed {
+		return tan.CreateLogMultiplexedTan(cfg, nil, []string{dir}, []string{})
+	}
+	return tan.CreateTan(cfg, nil, []string{dir}, []string{})
+}
+
+// TanPreopen opens the tan db of the specified node with a small max log file
+// size.
+func TanPreopen(db raftio.ILogDB, shardID uint64, replicaID uint64, maxLogFileSize int64) error {
+	return db.(*tan.LogDB).VerifC10Preopen(shardID, replicaID, maxLogFileSize)
+}
+
+// BatchSize is the entry batch size used by the batched entry format.
+func BatchSize() uint64 {
+	return settings.Hard.LogDBEntryBatchSize
+}
+
+// TanFrame writes the records with tan's record writer.
+func TanFrame(records [][]byte) ([]byte, error) {
+	return tan.VerifC10Frame(records)
+}
+
+// TanReplay reads the records of a log image with tan's record reader.
+func TanReplay(data []byte) ([][]byte, string) {
+	return tan.VerifC10Replay(data)
+}
+
+// TanIsInvalidRecord tells whether a replay verdict is treated as a torn tail.
+func TanIsInvalidRecord(verdict string) bool {
+	return tan.VerifC10IsInvalidRecord(verdict)
+}
+
+// TanBlockSize returns the block size and chunk header size of tan's record
+// format.
+func TanBlockSize() (int, int) {
+	return tan.VerifC10BlockSize()
+}
